@@ -33,7 +33,7 @@ def jExcept {α} (f : α → Json) : Except Err α → Json
   | .ok a => f a
   | .error e => Json.mkObj [("raised", Json.str (errName e))]
 
-inductive Check | pos | mem (sizes : List Nat)
+inductive Check | pos | mem (sizes : List Nat) | ocs (ch : Nat)
 
 def checkOfJson (j : Json) : Except String Check := do
   let a ← arr j
@@ -43,12 +43,15 @@ def checkOfJson (j : Json) : Except String Check := do
     if (← str tag) == "mem" then
       let sizes ← listOf nat sz
       if sizes.any (· == 0) then throw "element size 0" else return .mem sizes
+    else if (← str tag) == "ocs" then return .ocs (← nat sz)
     else throw "bad check"
   | _ => throw "bad check"
 
 def Check.fn : Check → Template → Schedule → Bool
   | .pos => isPureOutputStationary
   | .mem sizes => isMemoryFlexibleEnough sizes
+  -- is_output_channel_stationary as an extra check; the generators only use channel dims for which it cannot raise
+  | .ocs ch => fun t s => match isOutputChannelStationary ch t s with | .ok b => b | .error _ => false
 
 def rotateH : Handler := fun j => do
   return jExcept schedToJson (rotate (← nat (← field j "d")) (← schedOfJson (← field j "s")))
